@@ -176,6 +176,32 @@ def first_follow_ok(pg, start):
     return None
 
 
+def literal_sentences(ctx):
+    """every spelling of a number / string literal as the sentence `x = <literal>` (and as eval_input): accepted strictly, one leaf of the right
+    type carrying exactly the spelling - the part of 'every sentence' that depends on how the tokenizer classifies a terminal"""
+    import parso
+    for v in streams.versions():
+        g = parso.load_grammar(version=v)
+        for kind, lits in (('number', gens.NUMBERS), ('string', gens.STRINGS)):
+            for lit in lits:
+                for code, start in (('x = %s\n' % lit, 'file_input'), (lit, 'eval_input')):
+                    ctx.count('c06-literals')
+                    sig = None
+                    try:
+                        m = g.parse(code, error_recovery=False, start_symbol=start)
+                        leaves = [l for l in preds.leaves_rec(m, []) if l.type not in ('newline', 'endmarker', 'operator', 'name')]
+                        vals = ''.join(l.value for l in leaves)
+                        if [l.type for l in leaves] != [kind] * len(leaves) or vals.replace(' ', '') != lit.replace(' ', ''):
+                            sig = 'C06:literal-sentence-wrong-leaves'
+                    except parso.ParserSyntaxError:
+                        sig = 'C06:literal-sentence-rejected'
+                    except Exception as e:
+                        sig = preds.crash_sig(e)
+                    if sig:
+                        ctx.violation(sig, dict(kind='input', version=v, input_text=code, start_symbol=start, observed=sig))
+                        break
+
+
 def run(ctx, b, drv):
     pend = base.Pending(ctx)
     ll1ok = base.obligations(ctx, b, pend, ['LL1.v', 'LL1Inst.v', 'LL1Engine.v', 'EngineSim.v', 'Engine.v', 'Properties/C06.v'] +
@@ -183,6 +209,7 @@ def run(ctx, b, drv):
     base.mismatches(ctx, pend, streams.run_plans(ctx, drv), None)
     # sentences given as TEXT (through the tokenizer): the model pipeline and the implementation must agree, strict and recovering
     base.mismatches(ctx, pend, streams.run_parse(ctx, base.scale(ctx, 500), drv, stream='c06-text', kinds=['semantic', 'valid', 'fstrings', 'derived']), None)
+    literal_sentences(ctx)
     per = base.scale(ctx, 60) if ll1ok else base.scale(ctx, 3000)
     TY = ['STRING', 'NUMBER', 'NAME', 'ERRORTOKEN', 'NEWLINE', 'INDENT', 'DEDENT', 'ERROR_DEDENT', 'FSTRING_STRING', 'FSTRING_START',
           'FSTRING_END', 'OP', 'ENDMARKER']
